@@ -380,6 +380,23 @@ void thrift_read_map_begin(thrift_decoder_t* dec,
  * ============================================================================
  */
 
+/* Containers nested inside skipped values count against the same nesting
+ * limit as structs, so that hostile input cannot exhaust the stack. */
+static bool enter_container(thrift_decoder_t* dec) {
+    if (dec->nesting_level >= THRIFT_MAX_NESTING) {
+        set_error(dec, CARQUET_ERROR_THRIFT_DECODE, "Container nesting too deep");
+        return false;
+    }
+    dec->nesting_level++;
+    return true;
+}
+
+static void leave_container(thrift_decoder_t* dec) {
+    if (dec->nesting_level > 0) {
+        dec->nesting_level--;
+    }
+}
+
 void thrift_skip(thrift_decoder_t* dec, thrift_type_t type) {
     if (dec->status != CARQUET_OK) {
         return;
@@ -423,21 +440,25 @@ void thrift_skip(thrift_decoder_t* dec, thrift_type_t type) {
         case THRIFT_TYPE_SET: {
             thrift_type_t elem_type;
             int32_t count;
+            if (!enter_container(dec)) break;
             thrift_read_list_begin(dec, &elem_type, &count);
             for (int32_t i = 0; i < count && dec->status == CARQUET_OK; i++) {
                 skip_element(dec, elem_type);
             }
+            leave_container(dec);
             break;
         }
 
         case THRIFT_TYPE_MAP: {
             thrift_type_t key_type, value_type;
             int32_t count;
+            if (!enter_container(dec)) break;
             thrift_read_map_begin(dec, &key_type, &value_type, &count);
             for (int32_t i = 0; i < count && dec->status == CARQUET_OK; i++) {
                 skip_element(dec, key_type);
                 skip_element(dec, value_type);
             }
+            leave_container(dec);
             break;
         }
 
